@@ -7,6 +7,7 @@ from the source through `Gen/LayoutsR`), an independent renderer of the publishe
 -/
 import Iodata.Lemmas.FmtR.GaussianLog
 import Iodata.Lemmas.FmtR.Vasp
+import Iodata.Lemmas.FmtR.Crd
 import Iodata.Gen.LayoutsR
 import Iodata.Gen.Layouts
 
@@ -111,6 +112,33 @@ theorem vasp_chunk_spec (k : Nat) (hk : 0 < k) (xs : List Num) :
 
 /-- non-vacuity: a 2×1×3 grid on a triclinic cell, selective dynamics, values 4 per line (ragged), is in the domain -/
 example : Vasp.HeaderDom vaspL Iodata.Gen.Layouts.tables Vasp.vasp5 Vasp.exampleModel ∧ Vasp.GridDom Vasp.vasp5 Vasp.exampleModel := by
+  decide +kernel
+
+/-! ## CHARMM CRD -/
+
+/-- T1: the statements of `load_one` / `_helper_read_crd` are the ones the model transcribes (positions in double
+precision, `pos *= angstrom`, `float(words[9]) * amu`), the word indices are 1…9 in the order of the card format, and
+the record fields go to `atffparams` (`attypes`, `resnames`, `resnums`), `atcoords`, `atmasses`, `extra` (`segid`, `resid`). -/
+theorem crd_source_shape : crdSkel = Crd.expectedSkel ∧ crdReturn = Crd.expectedReturn ∧ Crd.LayoutOK crdL := by
+  decide +kernel
+
+/-- CRD: every file of the published card layout `(I5, I5, 1X, A4, 1X, A4, 3F10.5, 1X, A4, 1X, A4, F10.5)` — any number
+of title lines, fields separated by at least one blank — loads as the object it denotes: the title is the text of the
+title lines, each record's residue number, residue name, atom type, x, y, z, segment id, residue id and weight stay
+attached to their atom, in order. -/
+theorem crd_load_spec (L : Crd.Layout) (hL : Crd.LayoutOK L) (m : Crd.Model) (h : Crd.Dom m) :
+    Crd.load L (Crd.specRender m) = .ok m.obj :=
+  Crd.load_spec L hL m h
+
+/-- CRD units: positions are the printed Å values times `angstrom`, masses the printed amu values times `amu`. -/
+theorem crd_units (U : Crd.Units) (o : Crd.Obj) :
+    Crd.atcoords U o = o.atoms.map (fun a => [a.x.val * U.angstrom, a.y.val * U.angstrom, a.z.val * U.angstrom]) ∧
+    Crd.atmasses U o = o.atoms.map (fun a => a.mass.val * U.amu) := ⟨rfl, rfl⟩
+
+/-- non-vacuity: the first record of the repository's fixture and a record filling its columns -/
+example : Crd.Dom ⟨[" 1CCN FROM PSF OR PDB - OPTIMIZED".toList, "  DATE:     6/ 4/ 8".toList],
+    [⟨1, ['T','H','R'], ['N'], ⟨true, 385076, -5⟩, ⟨true, 704232, -5⟩, ⟨false, 462858, -5⟩, ['M','A','I','N'], 1, ⟨false, 1400700, -5⟩⟩,
+     ⟨9999, ['T','I','P','3'], ['O','H','2','X'], ⟨false, 99999999, -5⟩, ⟨true, 9999999, -5⟩, ⟨false, 0, -5⟩, ['W'], 9999, ⟨false, 99999999, -5⟩⟩]⟩ := by
   decide +kernel
 
 end Iodata.Props.C03Readers
